@@ -48,7 +48,12 @@ META = dict(
              "model and the disk model produce the same results and equal trees, also behind child views "
              "(mem_disk_agree); no call panics, every call changes only addressed paths, and nothing outside the "
              "root directory of the host changes (no_panic, disk_fail_clean, host_confined); outside Pre calls "
-             "are refused except in four listed tolerated classes (disk_refused_outside_pre_partial).  The model "
+             "are refused except in the listed tolerated classes (disk_refused_outside_pre_partial).  Every backend "
+             "pair — any memory handle (root or child view at any base) against any disk handle (root or child view) "
+             "— agrees on every history inside the precondition, the only difference being the name Lstat reports "
+             "for the pair's own root (pair_agree, pair_step_only_difference); every call, inside or outside Pre, "
+             "reads the host only at and below the root directory (host_reads_confined, host_reads_confined_run; the "
+             "root directory must exist: host_reads_root_needed).  The model "
              "is tied to /repo on every run by the differential and by a structural tie: go/ast normal forms of every "
              "method of diskfs.Filespace (each path argument reduced first and the error returned; the host call made "
              "on root+reduced; Writer's O_WRONLY|O_CREATE|O_TRUNC; WriteFile = MkdirAll(dir) then write; Remove/"
@@ -201,9 +206,9 @@ def _differs(ctx, go, model, lines, tag="dd"):
 
 
 def _keep(units):
-    """number of leading units (reset / new) that every candidate keeps"""
+    """number of leading units (reset / new / the preamble that makes the memory twin a view) every candidate keeps"""
     n = 0
-    while n < len(units) and units[n].split(" ")[0] in ("reset", "new"):
+    while n < len(units) and (units[n].split(" ")[0] in ("reset", "new") or " 101 " in units[n] + " "):
         n += 1
     return n
 
@@ -434,7 +439,7 @@ def _run(ctx):
                 gaps.append("%s:%s" % (cmd, res))
     for key in ("readfile:data", "readfile:err", "readdir:list", "readdir:err", "reader:rd", "reader:err", "lstat:stat",
                 "lstat:err", "isexist:t", "isexist:f", "isfile:t", "isfile:f", "isdir:t", "isdir:f", "dump:tree",
-                "hostsnap:host", "gen:copy:into-source", "gen:histories:left-pre"):
+                "hostsnap:host", "gen:copy:into-source", "gen:histories:left-pre", "gen:histories:memview-vs-diskroot"):
         if not ctx.histogram.get(key):
             gaps.append(key)
     for cmd in ("writer", "removeall", "copyfile", "copydir", "copy", "reader", "lstat", "view"):
